@@ -27,7 +27,7 @@ def gen_case(rng, nmax=25):
             'azimuth': rng.choice([0, 45, 90, -45, 135, 180, -180, -90, 30, -120, 100, 170, -170, rng.randint(-180, 180), rng.uniform(-180, 180)]),
             'tolerance': rng.choice([0, 10, 22.5, 45, 90, 120, 180, 270, 360, rng.uniform(0, 360)]),
             'bandwidth': bw, 'model': rng.choice(['compass', 'triangle']), 'n_lags': rng.randint(2, 8),
-            'estimator': rng.choice(['matheron', 'cressie', 'dowd']), 'bin_func': rng.choice(['even', 'even', 'uniform']),
+            'estimator': rng.choice(['matheron', 'cressie', 'dowd']), 'bin_func': rng.choice(['even', 'even', 'uniform', 'ward']),
             'maxlag': rng.choice([None, None, 0.6, 'median']), 'dist_func': rng.choice(['euclidean', 'euclidean', 'euclidean', 'cityblock', 'chebyshev']),
             'coords_dtype': (rng.choice([None, 'uint16', 'int32', 'uint8']) if (np.all(c == np.round(c)) and c.min() >= 0 and c.max() < 250) else None),
             'tags': {'points': kind, 'n': len(c)}}
